@@ -88,6 +88,17 @@ class Ev(object):
         self.cfg = cfg
         self.n = 0
         self.hs = cfg.get("hashseeds") or []
+        self.arrays = {}
+
+    def arr(self, P):
+        """The caller's array for this diagram: built once per case and *reused* for every later call, the
+        way a user filling a distance matrix reuses their arrays (so a call that modifies its argument
+        shows up in the laws evaluated afterwards)."""
+        key = id(P)
+        hit = self.arrays.get(key)
+        if hit is None or hit[0] is not P:
+            hit = self.arrays[key] = (P, dgmgen.materialize(P))
+        return hit[1]
 
     def bott(self, P, Q):
         self.n += 1
@@ -95,7 +106,7 @@ class Ev(object):
             mode = self.cfg.get("mode", "uniform")
             if mode not in ("uniform", "sparse", "reverse", "insertion"):
                 raise InvalidCase("bad mode")
-            v, _, _ = mc.call_bottleneck(self.sched, dgmgen.materialize(P), dgmgen.materialize(Q), False, mode, "ignore")
+            v, _, _ = mc.call_bottleneck(self.sched, self.arr(P), self.arr(Q), False, mode, "ignore")
             return v
         if not self.hs:
             raise InvalidCase("no hash seeds")
@@ -105,7 +116,7 @@ class Ev(object):
 
     def wass(self, P, Q):
         self.n += 1
-        return mc.call_wasserstein(dgmgen.materialize(P), dgmgen.materialize(Q), False, "ignore")[0]
+        return mc.call_wasserstein(self.arr(P), self.arr(Q), False, "ignore")[0]
 
 
 def _scale(*ds):
